@@ -339,6 +339,10 @@ func runC20(c *Ctx) {
 			wm := &gen.WSign1{L: gen.WLayer{ProtMap: refcbor.NMap(refcbor.NInt(1), refcbor.NInt(int64(alg)), refcbor.NInt(258), refcbor.NInt(-16))}, Payload: make([]byte, 32), Sig: mon.FixedSig, Tagged: true}
 			return wm.Bytes()
 		}()
+		hashEnvUnknown := func() []byte {
+			wm := &gen.WSign1{L: gen.WLayer{ProtMap: refcbor.NMap(refcbor.NInt(1), refcbor.NInt(int64(alg)), refcbor.NInt(258), refcbor.NInt(int64(-15-round)))}, Payload: make([]byte, 20), Sig: mon.FixedSig, Tagged: true}
+			return wm.Bytes()
+		}()
 		for f, fe := range vfaults {
 			ventries := map[string]func(v cose.Verifier) error{
 				"Sign1Message.Verify": func(v cose.Verifier) error {
@@ -354,6 +358,16 @@ func runC20(c *Ctx) {
 					return (&cose.Countersignature{Headers: mkHeaders(), Signature: mon.FixedSig}).Verify(v, parent, ext)
 				},
 				"VerifyCountersign0": func(v cose.Verifier) error { return cose.VerifyCountersign0(v, parent, ext, mon.FixedSig) },
+				"VerifyHashEnvelope(unknown hash alg)": func(v cose.Verifier) error {
+					m, err := cose.VerifyHashEnvelope(v, hashEnvUnknown)
+					if err == nil && m == nil {
+						return errors.New("nil message without error")
+					}
+					if err != nil && m != nil {
+						return fmt.Errorf("message returned together with error: %w", err)
+					}
+					return err
+				},
 				"VerifyHashEnvelope": func(v cose.Verifier) error {
 					m, err := cose.VerifyHashEnvelope(v, hashEnv)
 					if err == nil && m == nil {
